@@ -146,8 +146,8 @@ FIRST = {
     'C17-16': ('reported', ['C03'], None),
     'C14-12': ('reported', ['C08', 'C09', 'C10'], None),
     'C16-8': ('reported', ['C05', 'C06', 'C07', 'C17'], None),
-    'C05-10': ('analysis-error', [], 'NOT reported: MPO.from_opgraph rewritten around comprehensions and the node map; the layer rules of '
-                                     'C05.R3 cannot follow (exit 2, fail-closed) - kept as a known miss'),
+    'C05-10': ('analysis-error', [], 'a known miss for two rounds (exit 2, fail-closed); C05.R3 then learned that a column read back from the '
+                                     'node map recorded by enumerating the layer is a column lookup - the counter rule fires on `len(Alist)`'),
     'C10-9': ('analysis-error', [], 'the sinking pass makes the extracted half-sweeps visible again; C10.R4 (reported energy belongs to the final '
                                     'half sweep) then fires'),
     'C02-9': ('reported', ['C13'], None),
@@ -164,6 +164,14 @@ FIRST = {
     'C04-13': ('reported', [], None),
     'C03-9': ('reported', ['C02'], None),
     'C08-9': ('reported', ['C09'], None),
+    # round 9: control batch of one-token slips; slips inside refactorings of the graph / molecular constructions
+    'C12-9': ('reported', ['C13'], None), 'C11-9': ('reported', ['C01', 'C02', 'C08'], None), 'C02-11': ('reported', ['C13'], None),
+    'C14-15': ('reported', ['C08', 'C09', 'C10'], None), 'C04-14': ('reported', [], None), 'C16-10': ('reported', [], None),
+    'C05-12': ('reported', ['C06', 'C07'], None), 'C17-17': ('reported', ['C03'], None),
+    'C05-13': ('analysis-error', [], 'C05.R3 reads roles: a position table built by enumerating the layer is the layer ordering in another form; '
+                                     'X.update(pairs) is the loop of stores; the counter rule then fires on `len(Alist)`'),
+    'C17-18': ('reported', [], None), 'C05-14': ('reported', ['C06', 'C07'], None),
+    'C07-12': ('reported', [], None), 'C07-13': ('reported', [], None),
     # round 4: C06 (claimed late; first run = literal-shape version of the table engine)
     'C06-1': ('reported', [], None),
     'C06-2': ('reported', [], 'reported for the wrong reason at first (the conditional construction was not understood); now: undecided '
